@@ -17,7 +17,18 @@
 //!                Jump = specialize_conditional (true for a taken CBranch, false after an untaken one; None => the edge yields
 //!                None) and then update_jump),
 //!   merge        Value/Value and all combinator slot combinations against "merge of the analysis, slot-wise merge_option",
+//!   precondition on every CFG that `get_program_cfg` builds for a well-formed program (<= 2 jumps per block, two jumps = conditional
+//!                branch first, targets exist) every edge connects node kinds such that the transfer is defined for a node value of
+//!                the variant that belongs to its source node (CallReturn: combinator, else plain value) -- the part unit
+//!                fwd_fixpoint leaves undecided (ff_edge_kinds_ok), sampled here,
 //!   worklists    create_bottom_up_worklist / create_top_down_worklist list every node index of the graph exactly once.
+//! Twin `c07b.backward`: the same programs, the REVERSED graph (`graph.reverse()`), a tracing context for the trait of
+//! `analysis::backward_interprocedural_fixpoint`, and the real backward `GeneralizedContext::{update_edge, merge}` against the
+//! executable version of bf_update_edge / bf_merge (spec/bwd_fixpoint.rs): Block = update_def over the defs LAST to first;
+//! ReturnCombine = identity; Call = combinator with the value in the interprocedural_flow slot; CrCallStub = combinator with
+//! split_call_stub(value) in the call_stub slot; CrReturnStub = split_return_stub(value, returned-from function); CallCombine =
+//! update_callsite(flow, stub, calling function, FIRST jump of the callsite block, term of the edge); ExternCallStub =
+//! update_call_stub; Jump = update_jumpsite(value, jump, untaken, jumpsite block) without conditional specialisation.
 //! This is the executable version of the contracts of unit `fwd_fixpoint` (spec/fwd_fixpoint.rs: ff_update_edge, ff_merge,
 //! ff_is_node_permutation).
 use crate::util::Rng;
@@ -25,6 +36,7 @@ use cwe_checker_lib::analysis::fixpoint::Context as GeneralFPContext;
 use cwe_checker_lib::analysis::forward_interprocedural_fixpoint::{
     create_bottom_up_worklist, create_top_down_worklist, Context, GeneralizedContext,
 };
+use cwe_checker_lib::analysis::backward_interprocedural_fixpoint as bwd;
 use cwe_checker_lib::analysis::graph::{get_program_cfg, Edge, Graph, Node};
 use cwe_checker_lib::analysis::interprocedural_fixpoint_generic::NodeValue;
 use cwe_checker_lib::intermediate_representation::*;
@@ -56,6 +68,8 @@ struct Case {
     subs: Vec<(String, Option<String>, Vec<B>)>,
     /// decides which calls of the tracing context are blocked (return None)
     salt: u64,
+    /// replay only (`"lenient": true` in the input): also run programs that are not well-formed / normalized
+    lenient: bool,
 }
 
 fn opt(v: &Value) -> Option<String> {
@@ -97,6 +111,7 @@ impl Case {
     fn from_json(v: &Value) -> Case {
         Case {
             salt: v["salt"].as_u64().unwrap_or(0),
+            lenient: v["lenient"].as_bool().unwrap_or(false),
             subs: v["subs"].as_array().map(|a| a.iter().map(|s| (
                 s["name"].as_str().unwrap_or("").to_string(),
                 opt(&s["cconv"]),
@@ -324,6 +339,167 @@ fn expected_merge(ctx: &Ctx, a: &NV, b: &NV) -> Result<NV, ()> {
     }
 }
 
+
+// ---- the BACKWARD adapter (twin c07b.backward): tracing context and reference ---------------------------------------------------
+
+struct BCtx<'a> {
+    graph: &'a Graph<'a>,
+    salt: u64,
+}
+
+impl<'a> BCtx<'a> {
+    fn out(&self, trace: String) -> Option<String> {
+        if fnv(&trace, self.salt) % 3 == 0 {
+            None
+        } else {
+            Some(trace)
+        }
+    }
+}
+
+impl<'a> bwd::Context<'a> for BCtx<'a> {
+    type Value = String;
+
+    fn get_graph(&self) -> &Graph<'a> {
+        self.graph
+    }
+    fn merge(&self, value1: &String, value2: &String) -> String {
+        format!("M({},{})", value1, value2)
+    }
+    fn update_def(&self, value: &String, def: &Term<Def>) -> Option<String> {
+        self.out(format!("D({},{})", value, def.tid))
+    }
+    fn update_jumpsite(&self, value_after_jump: &String, jump: &Term<Jmp>, untaken_conditional: Option<&Term<Jmp>>, jumpsite: &Term<Blk>) -> Option<String> {
+        self.out(format!("J({},{},{},{})", value_after_jump, jump.tid, untaken_conditional.map(|u| u.tid.to_string()).unwrap_or("-".to_string()), jumpsite.tid))
+    }
+    fn update_callsite(&self, target_value: Option<&String>, return_value: Option<&String>, caller_sub: &Term<Sub>, call: &Term<Jmp>, return_: &Term<Jmp>) -> Option<String> {
+        self.out(format!("C({},{},{},{},{})", o(target_value), o(return_value), caller_sub.tid, call.tid, return_.tid))
+    }
+    fn split_call_stub(&self, combined_value: &String) -> Option<String> {
+        self.out(format!("SC({})", combined_value))
+    }
+    fn split_return_stub(&self, combined_value: &String, returned_from_sub: &Term<Sub>) -> Option<String> {
+        self.out(format!("SR({},{})", combined_value, returned_from_sub.tid))
+    }
+    fn update_call_stub(&self, value_after_call: &String, call: &Term<Jmp>) -> Option<String> {
+        self.out(format!("X({},{})", value_after_call, call.tid))
+    }
+    fn specialize_conditional(&self, value_after_jump: &String, condition: &Expression, is_true: bool) -> Option<String> {
+        self.out(format!("S({},{},{})", value_after_jump, condition, is_true))
+    }
+}
+
+/// The backward transfer system on the REVERSED graph (executable version of bf_update_edge, spec/bwd_fixpoint.rs).
+/// `Err(())`: outside the precondition.
+fn expected_edge_bwd(ctx: &BCtx, graph: &Graph, nv: &NV, e: EdgeIndex) -> Result<Option<NV>, ()> {
+    use bwd::Context;
+    let (s, t) = graph.edge_endpoints(e).ok_or(())?;
+    let (src, dst) = (graph[s], graph[t]);
+    match graph[e] {
+        Edge::Block => {
+            let mut acc = plain(nv).ok_or(())?.clone();
+            for def in blk(&src).ok_or(())?.term.defs.iter().rev() {
+                match ctx.update_def(&acc, def) {
+                    Some(x) => acc = x,
+                    None => return Ok(None),
+                }
+            }
+            Ok(Some(NodeValue::Value(acc)))
+        }
+        Edge::ReturnCombine(_) => Ok(Some(NodeValue::Value(plain(nv).ok_or(())?.clone()))),
+        Edge::Call(_) => Ok(Some(NodeValue::CallFlowCombinator { call_stub: None, interprocedural_flow: Some(plain(nv).ok_or(())?.clone()) })),
+        Edge::CrCallStub => Ok(Some(NodeValue::CallFlowCombinator { call_stub: ctx.split_call_stub(plain(nv).ok_or(())?), interprocedural_flow: None })),
+        Edge::CrReturnStub => match dst {
+            Node::BlkEnd(_, returned_from_sub) => Ok(wrap(ctx.split_return_stub(plain(nv).ok_or(())?, returned_from_sub))),
+            _ => Err(()),
+        },
+        Edge::CallCombine(term) => match (nv, src) {
+            (NodeValue::CallFlowCombinator { call_stub, interprocedural_flow }, Node::CallSource { source: (call_blk, caller_sub), target: _ }) => {
+                let first_jump = call_blk.term.jmps.first().ok_or(())?;
+                Ok(wrap(ctx.update_callsite(interprocedural_flow.as_ref(), call_stub.as_ref(), caller_sub, first_jump, term)))
+            }
+            _ => Err(()),
+        },
+        Edge::ExternCallStub(call) => Ok(wrap(ctx.update_call_stub(plain(nv).ok_or(())?, call))),
+        Edge::Jump(jump, untaken) => Ok(wrap(ctx.update_jumpsite(plain(nv).ok_or(())?, jump, untaken, blk(&dst).ok_or(())?))),
+    }
+}
+
+fn expected_merge_bwd(ctx: &BCtx, a: &NV, b: &NV) -> Result<NV, ()> {
+    use bwd::Context;
+    let mo = |x: &Option<String>, y: &Option<String>| match (x, y) {
+        (Some(x), Some(y)) => Some(ctx.merge(x, y)),
+        (Some(x), None) => Some(x.clone()),
+        (None, Some(y)) => Some(y.clone()),
+        (None, None) => None,
+    };
+    match (a, b) {
+        (NodeValue::Value(x), NodeValue::Value(y)) => Ok(NodeValue::Value(ctx.merge(x, y))),
+        (NodeValue::CallFlowCombinator { call_stub: c1, interprocedural_flow: r1 }, NodeValue::CallFlowCombinator { call_stub: c2, interprocedural_flow: r2 }) => {
+            Ok(NodeValue::CallFlowCombinator { call_stub: mo(c1, c2), interprocedural_flow: mo(r1, r2) })
+        }
+        _ => Err(()),
+    }
+}
+
+/// twin c07b.backward on one program
+fn check_backward(case: &Case, graph: &Graph) -> Option<Value> {
+    let fail = |what: &str, detail: Value, expected: Value, got: Value| {
+        Some(json!({"check": what, "detail": detail, "input": case.to_json(), "expected": expected, "got": got}))
+    };
+    let mut rgraph = graph.clone();
+    rgraph.reverse();
+    let gc = bwd::GeneralizedContext::new(BCtx { graph: &rgraph, salt: case.salt });
+    let ctx = BCtx { graph: &rgraph, salt: case.salt };
+    for er in rgraph.edge_references() {
+        let e = er.id();
+        let inputs: Vec<NV> = match rgraph[er.source()] {
+            Node::CallSource { .. } => combinators("v"),
+            _ => vec![NodeValue::Value("v".to_string()), NodeValue::Value("w".to_string())],
+        };
+        for nv in inputs {
+            let detail = json!({"direction": "backward (reversed graph)", "edge_kind": edge_name(&rgraph[e]), "edge": e.index(), "source": format!("{}", rgraph[er.source()]),
+                                "target": format!("{}", rgraph[er.target()]), "node_value": nv_desc(&Some(nv.clone()))});
+            let want = match expected_edge_bwd(&ctx, &rgraph, &nv, e) {
+                Ok(w) => w,
+                Err(()) => return fail("edge_precondition", detail, json!("node kinds at the ends of the edge as the edge label promises"), json!("precondition of the backward update_edge violated on a reversed built CFG")),
+            };
+            cover(format!("bwd {}{}", edge_name(&rgraph[e]), if want.is_none() { " -> None" } else { "" }));
+            let got = catch_unwind(AssertUnwindSafe(|| gc.update_edge(&nv, e)));
+            match got {
+                Err(_) => return fail("update_edge", detail, nv_desc(&want), json!("panic")),
+                Ok(g) => {
+                    if g != want {
+                        return fail("update_edge", detail, nv_desc(&want), nv_desc(&g));
+                    }
+                }
+            }
+        }
+    }
+    let mut vals: Vec<NV> = vec![NodeValue::Value("a".to_string()), NodeValue::Value("b".to_string())];
+    vals.extend(combinators("a"));
+    vals.extend(combinators("b"));
+    for a in &vals {
+        for b in &vals {
+            let want = match expected_merge_bwd(&ctx, a, b) {
+                Ok(w) => w,
+                Err(()) => continue,
+            };
+            let got = catch_unwind(AssertUnwindSafe(|| gc.merge(a, b)));
+            let detail = json!({"direction": "backward", "left": nv_desc(&Some(a.clone())), "right": nv_desc(&Some(b.clone()))});
+            match got {
+                Err(_) => return fail("merge", detail, nv_desc(&Some(want)), json!("panic")),
+                Ok(g) => {
+                    if g != want {
+                        return fail("merge", detail, nv_desc(&Some(want)), nv_desc(&Some(g)));
+                    }
+                }
+            }
+        }
+    }
+    None
+}
+
 fn nv_desc(nv: &Option<NV>) -> Value {
     match nv {
         None => json!(null),
@@ -345,6 +521,15 @@ fn edge_name(e: &Edge) -> &'static str {
     }
 }
 
+/// how many edge transfers of each kind (and how many that yield None) a sweep compared -- reported by `sweep`
+static COVERAGE: std::sync::Mutex<BTreeMap<String, u64>> = std::sync::Mutex::new(BTreeMap::new());
+
+fn cover(key: String) {
+    if let Ok(mut m) = COVERAGE.lock() {
+        *m.entry(key).or_insert(0) += 1;
+    }
+}
+
 fn combinators(tag: &str) -> Vec<NV> {
     let mut out = Vec::new();
     for cs in [None, Some(format!("{}s", tag))] {
@@ -355,8 +540,17 @@ fn combinators(tag: &str) -> Vec<NV> {
     out
 }
 
-fn check(case: &Case) -> Option<Value> {
-    if !case.well_formed() {
+/// `check_inner` with the panic messages of the code under test silenced (a panic is caught and reported as a disagreement)
+fn check(case: &Case, backward: bool) -> Option<Value> {
+    let prev = std::panic::take_hook();
+    std::panic::set_hook(Box::new(|_| {}));
+    let r = check_inner(case, backward);
+    std::panic::set_hook(prev);
+    r
+}
+
+fn check_inner(case: &Case, backward: bool) -> Option<Value> {
+    if !case.well_formed() && !case.lenient {
         return None;
     }
     let program = case.program();
@@ -364,6 +558,9 @@ fn check(case: &Case) -> Option<Value> {
         Ok(g) => g,
         Err(_) => return None, // the CFG builder is C08's business
     };
+    if backward {
+        return check_backward(case, &graph);
+    }
     let fail = |what: &str, detail: Value, expected: Value, got: Value| {
         Some(json!({"check": what, "detail": detail, "input": case.to_json(), "expected": expected, "got": got}))
     };
@@ -394,13 +591,17 @@ fn check(case: &Case) -> Option<Value> {
             _ => vec![NodeValue::Value("v".to_string()), NodeValue::Value("w".to_string())],
         };
         for nv in inputs {
-            let want = match expected_edge(&ctx, &graph, &nv, e) {
-                Ok(w) => w,
-                Err(()) => continue,
-            };
-            let got = catch_unwind(AssertUnwindSafe(|| gc.update_edge(&nv, e)));
             let detail = json!({"edge_kind": edge_name(&graph[e]), "edge": e.index(), "source": format!("{}", graph[er.source()]),
                                 "target": format!("{}", graph[er.target()]), "node_value": nv_desc(&Some(nv.clone()))});
+            let want = match expected_edge(&ctx, &graph, &nv, e) {
+                Ok(w) => w,
+                // the graph of a well-formed program connects node kinds such that a node value of the variant belonging to the
+                // source node satisfies the precondition of the edge transfer (ff_edge_kinds_ok / lemma_ff_pre_from_shape of
+                // unit fwd_fixpoint: NOT proved for the graphs get_program_cfg builds, sampled here)
+                Err(()) => return fail("edge_precondition", detail, json!("node kinds at the ends of the edge as the edge label promises"), json!("precondition of update_edge violated on a built CFG")),
+            };
+            cover(format!("{}{}", edge_name(&graph[e]), if want.is_none() { " -> None" } else { "" }));
+            let got = catch_unwind(AssertUnwindSafe(|| gc.update_edge(&nv, e)));
             match got {
                 Err(_) => return fail("update_edge", detail, nv_desc(&want), json!("panic")),
                 Ok(g) => {
@@ -476,7 +677,7 @@ fn random_case(rng: &mut Rng) -> Case {
         };
         subs.push((format!("f{}", f), cc, blocks));
     }
-    Case { subs, salt: rng.next() }
+    Case { subs, salt: rng.next(), lenient: false }
 }
 
 fn fixed_cases() -> Vec<Case> {
@@ -491,6 +692,7 @@ fn fixed_cases() -> Vec<Case> {
                 b("b2", 0, vec![]),
             ])],
             salt,
+            lenient: false,
         });
         // caller / callee with a conditional return (the returning block ends with CBranch + Return) and a recursive call
         out.push(Case {
@@ -505,12 +707,13 @@ fn fixed_cases() -> Vec<Case> {
                 ]),
             ],
             salt,
+            lenient: false,
         });
     }
     out
 }
 
-fn enumerate(seed: u64, count: &mut u64, disagreements: &mut u64, first_only: bool) -> Option<Value> {
+fn enumerate(seed: u64, backward: bool, count: &mut u64, disagreements: &mut u64, first_only: bool) -> Option<Value> {
     let mut first = None;
     let mut rng = Rng(seed);
     let mut cases = fixed_cases();
@@ -522,7 +725,7 @@ fn enumerate(seed: u64, count: &mut u64, disagreements: &mut u64, first_only: bo
             continue;
         }
         *count += 1;
-        if let Some(v) = check(&c) {
+        if let Some(v) = check(&c, backward) {
             *disagreements += 1;
             if first.is_none() {
                 first = Some(v);
@@ -537,17 +740,17 @@ fn enumerate(seed: u64, count: &mut u64, disagreements: &mut u64, first_only: bo
 
 pub fn search(twin: &str, _case: Option<&str>, seed: u64) -> Option<Value> {
     match twin {
-        "c07b.adapter" => {
+        "c07b.adapter" | "c07b.backward" => {
             let (mut n, mut d) = (0, 0);
-            enumerate(seed, &mut n, &mut d, true)
+            enumerate(seed, twin == "c07b.backward", &mut n, &mut d, true)
         }
         _ => None,
     }
 }
 
-pub fn replay(_twin: &str, input: &Value) -> Value {
+pub fn replay(twin: &str, input: &Value) -> Value {
     let case = Case::from_json(input);
-    match check(&case) {
+    match check(&case, twin == "c07b.backward") {
         Some(v) => json!({"agrees": false, "check": v["check"], "detail": v["detail"], "expected": v["expected"], "got": v["got"], "input": input}),
         None => json!({"agrees": true, "well_formed": case.well_formed(), "input": input}),
     }
@@ -555,6 +758,7 @@ pub fn replay(_twin: &str, input: &Value) -> Value {
 
 pub fn sweep(twin: &str, seed: u64) -> Value {
     let (mut n, mut d) = (0, 0);
-    let first = if twin == "c07b.adapter" { enumerate(seed, &mut n, &mut d, false) } else { None };
-    json!({"twin": twin, "cases": n, "disagreements": d, "first": first})
+    let first = if twin == "c07b.adapter" || twin == "c07b.backward" { enumerate(seed, twin == "c07b.backward", &mut n, &mut d, false) } else { None };
+    let coverage = COVERAGE.lock().map(|m| json!(*m)).unwrap_or(json!(null));
+    json!({"twin": twin, "cases": n, "disagreements": d, "first": first, "edge_transfers_compared": coverage})
 }
